@@ -103,6 +103,11 @@ for dt in DT:
                         k0 = 1 if n % 4 == 1 else min(len(raw), size)
                         raw[:k0] = (b" " if n % 8 < 4 else b"\n") * k0
                         arr = np.frombuffer(bytes(raw), dtype=arr.dtype).reshape(shape)
+                    if n % 3 == 2:
+                        # ... and the LAST byte of the data equal to an ASCII whitespace code (nothing is trimmed off a binary file)
+                        raw = bytearray(arr.tobytes())
+                        raw[-1] = [0x0a, 0x20, 0x0d, 0x09, 0x0c][(n // 3) % 5]
+                        arr = np.frombuffer(bytes(raw), dtype=arr.dtype).reshape(shape)
                     b = build(dt, order, version, variant, shape, arr)
                     if size == 1 and order in ("<", ">"):
                         # numpy writes '|i1'; respell the byte order explicitly
